@@ -6,13 +6,24 @@ package main
 //  - Receive of hostile input in every conversation state, followed by a probe that the
 //    conversation is still usable;
 //  - failure / short read of the k-th read from Conversation.Rand for every k, for every kind of
-//    operation that draws randomness.
+//    operation that draws randomness;
+//  - nested fragments (a complete fragment whose reassembled content looks like a fragment, a query,
+//    an error or an encoded message again), first in a worker process (a stack overflow is a fatal
+//    error that recover() does not catch), then - the inputs the worker survived - in this process.
+//    Violation keys of the worker: receive-stack-overflow, receive-hang, receive-fatal.
 
 import (
+	"bufio"
 	"bytes"
 	"fmt"
+	"io"
 	"math/rand"
+	"os"
+	"os/exec"
 	"runtime"
+	"runtime/debug"
+	"strconv"
+	"strings"
 	"time"
 
 	otr3 "github.com/coyim/otr3"
@@ -171,15 +182,45 @@ func (g *gen) hostileWire(l *link) []byte {
 	}
 }
 
-func (g *gen) receiveCase(w *world) {
+// pw == nil: hostile messages of every kind, straight in this process.
+// pw != nil: nested fragments; the conversation is built from a seed of its own so that the worker
+// can build the same one, every input goes to the worker first, and only what the worker survived
+// is handed to Receive in this process (where the model comparison sees it).
+func (g *gen) receiveCase(w *world, pw *kfWorker) {
+	if pw != nil && pwDeaths >= pwMaxDeaths {
+		g.dist["nested:skipped"]++ // the point is made; every further death costs a second or two
+		return
+	}
 	state := g.r.Intn(7)
-	l, ok := g.inState(w, state)
+	var l *link
+	var ok bool
+	var nested [][]byte
+	if pw == nil {
+		l, ok = g.inState(w, state)
+	} else {
+		seed := g.r.Int63()
+		saved := g.r
+		g.r = rand.New(rand.NewSource(seed))
+		l, ok = g.inState(w, state)
+		g.r = saved
+		if ok {
+			nested = g.nestedViaWorker(pw, seed, state, g.nestedFragments(l))
+		}
+		g.dist[fmt.Sprintf("nested:state%d", state)]++
+	}
 	if !ok {
 		olog.viol("C13", "setup-panics", fmt.Sprintf("bringing a conversation into state %d panicked", state))
 		return
 	}
-	for k := 0; k < 6 && !w.dead; k++ {
-		m := g.hostileWire(l)
+	for k := 0; (k < 6 || pw != nil) && !w.dead; k++ {
+		var m []byte
+		if pw == nil {
+			m = g.hostileWire(l)
+		} else if k < len(nested) {
+			m = nested[k]
+		} else {
+			break
+		}
 		var pan bool
 		measured(fmt.Sprintf("Receive(state %d)", state), m, func() string {
 			_, ts, _, p := w.recv(l.a, m)
@@ -240,6 +281,353 @@ func (g *gen) receiveCase(w *world) {
 			olog.viol("C13", "unusable-after-hostile-input", fmt.Sprintf("after hostile input in state %d a genuine message is no longer delivered", state))
 		}
 	}
+}
+
+// ---------------------------------------------------------------------------------------------
+// nested fragments
+//
+// A complete fragment (k == n: one piece, or the last piece of a stream) hands its reassembled
+// content to the receive path once more.  The content must not be able to make that loop: whatever
+// it looks like - a fragment again (valid or not, for this instance or another), a query, an error,
+// an encoded message, text - the call returns.  A piece never contains a comma, so neither does the
+// reassembled content; payloads with commas are generated too (the outer fragment is then invalid).
+
+func pwNoComma(b []byte) []byte {
+	c := append([]byte{}, b...)
+	for i := range c {
+		if c[i] == ',' {
+			c[i] = ';'
+		}
+	}
+	return c
+}
+
+func (g *gen) nestedTag(l *link) uint32 {
+	sa, sb := otr3.VerifSnapshot(l.a.c), otr3.VerifSnapshot(l.b.c)
+	switch g.r.Intn(7) {
+	case 0:
+		return sa.OurTag
+	case 1:
+		return sb.OurTag
+	case 2:
+		return 0
+	case 3:
+		return uint32(g.r.Intn(0x100))
+	case 4:
+		return 0x100 + uint32(g.r.Intn(4))
+	case 5:
+		return sa.OurTag + 1
+	default:
+		return g.r.Uint32()
+	}
+}
+
+// what a complete fragment carries
+func (g *gen) nestedInner(l *link, depth int) []byte {
+	sa, sb := otr3.VerifSnapshot(l.a.c), otr3.VerifSnapshot(l.b.c)
+	kind := g.r.Intn(15)
+	g.dist[fmt.Sprintf("nested:inner%d", kind)]++
+	switch kind {
+	case 0:
+		return []byte("?OTR|x")
+	case 1:
+		return append([]byte("?OTR|"), pwNoComma(g.blobText())...)
+	case 2: // an OTRv3 fragment header with any tags, and no comma after it
+		return []byte(fmt.Sprintf("?OTR|%08x|%08x", g.nestedTag(l), g.nestedTag(l)) + string(pwNoComma(g.blobText())))
+	case 3: // … with the tags of this very conversation
+		return []byte(fmt.Sprintf("?OTR|%x|%x", sb.OurTag, sa.OurTag))
+	case 4: // fragment bodies with commas (valid or not)
+		if g.r.Intn(2) == 0 {
+			return append([]byte("?OTR,"), g.fragBody()...)
+		}
+		return append([]byte(fmt.Sprintf("?OTR|%08x|%08x,", g.nestedTag(l), g.nestedTag(l))), g.fragBody()...)
+	case 5, 6: // a complete fragment again: a third (fourth) level
+		if depth < 3 {
+			ps := g.wrapFragment(l, g.nestedInner(l, depth+1), true)
+			return ps[len(ps)-1]
+		}
+		return []byte("?OTR|")
+	case 7:
+		return append([]byte("?OTR:"), pwNoComma(g.blobText())...)
+	case 8:
+		t := []string{"AAMD", "AAID", "AAIC", "AAMC", "AAMK", "AAIR", "AAMS", "AAEK", "AAQD"}[g.r.Intn(9)]
+		return []byte("?OTR:" + t + string(otr3.VerifB64Encode(g.blob())) + ".")
+	case 9:
+		return []byte([]string{"?OTRv23?", "?OTR?v2?", "?OTRv3?", "?OTRv4?", "?OTR?", "?OTRv?", "?OTRv2", "?OTR?v"}[g.r.Intn(8)])
+	case 10:
+		return append([]byte("?OTR Error:"), pwNoComma(g.blobText())...)
+	case 11: // the genuine message that is in flight (one piece or several: base64 has no comma)
+		if len(l.qba) > 0 {
+			return append([]byte{}, l.qba[0]...)
+		}
+		return []byte("?OTR|")
+	case 12:
+		if len(l.qba) > 0 {
+			return pwNoComma(g.mutateEncoded(l.qba[0]))
+		}
+		return []byte("?OTR,")
+	case 13:
+		return []byte([]string{"?OTR|", "?OTR,", "?OTR", "?OTR|,", "?OTR||", "?OTR|0|0", "", "?OTR|x|y|z", "?OTR|100|0", "?OTR|-1|+1", "?OTR,1", "?OTR|?OTR|"}[g.r.Intn(12)])
+	default: // text, with and without the whitespace tag
+		if g.r.Intn(2) == 0 {
+			return pwNoComma(g.blobText())
+		}
+		return append(pwNoComma(g.blobText()), []byte(" \t  \t\t\t\t \t \t \t    \t\t  \t   \t\t  \t\t")...)
+	}
+}
+
+// the pieces of a complete fragment stream around payload (valid: no deviation from the format)
+func (g *gen) wrapFragment(l *link, payload []byte, valid bool) [][]byte {
+	sa, sb := otr3.VerifSnapshot(l.a.c), otr3.VerifSnapshot(l.b.c)
+	v := sa.Version
+	if v == 0 || g.r.Intn(6) == 0 {
+		v = 2 + g.r.Intn(2)
+	}
+	hdr := "?OTR,"
+	if v == 3 {
+		s, r := sb.OurTag, sa.OurTag
+		if s == 0 {
+			s = 0x100 + uint32(g.r.Intn(1000))
+		}
+		if !valid || g.r.Intn(3) == 0 {
+			switch g.r.Intn(5) {
+			case 0:
+				r = 0
+			case 1:
+				r++ // another instance of ours
+			case 2:
+				s ^= 1 << uint(g.r.Intn(32))
+			case 3:
+				s = g.nestedTag(l)
+			default:
+				r = g.nestedTag(l)
+			}
+		}
+		if g.r.Intn(2) == 0 {
+			hdr = fmt.Sprintf("?OTR|%08x|%08x,", s, r)
+		} else {
+			hdr = fmt.Sprintf("?OTR|%x|%x,", s, r)
+		}
+	}
+	numf := "%05d"
+	if g.r.Intn(3) == 0 {
+		numf = "%d"
+	}
+	n := 1
+	if g.r.Intn(3) == 0 {
+		n = 2 + g.r.Intn(3)
+	}
+	cuts := []int{0}
+	for i := 1; i < n; i++ {
+		cuts = append(cuts, cuts[i-1]+g.r.Intn(len(payload)-cuts[i-1]+1))
+		if i == 1 && g.r.Intn(2) == 0 && len(payload) > 5 {
+			cuts[1] = 1 + g.r.Intn(5) // inside the prefix of the content
+		}
+	}
+	cuts = append(cuts, len(payload))
+	var ps [][]byte
+	for i := 0; i < n; i++ {
+		k, tot, tail := i+1, n, ","
+		if !valid && i == n-1 {
+			switch g.r.Intn(6) {
+			case 0:
+				k = n + 1
+			case 1:
+				k, tot = 0, 0
+			case 2:
+				tail = ""
+			case 3:
+				tail = ",x"
+			case 4:
+				tot = n + 1 // not the last piece after all
+			default:
+				tot = 65535
+				k = 65535
+			}
+		}
+		ps = append(ps, []byte(hdr+fmt.Sprintf(numf+","+numf+",", k, tot)+string(payload[cuts[i]:cuts[i+1]])+tail))
+	}
+	if n > 1 && g.r.Intn(6) == 0 {
+		ps = ps[1:] // the first piece is lost: the rest arrives out of sequence
+	}
+	return ps
+}
+
+func (g *gen) nestedFragments(l *link) [][]byte {
+	var ms [][]byte
+	for i := 0; i < 7; i++ {
+		ms = append(ms, g.wrapFragment(l, g.nestedInner(l, 1), g.r.Intn(5) != 0)...)
+		if g.r.Intn(6) == 0 {
+			// a stream left unfinished before the next complete fragment
+			ms = append(ms, g.wrapFragment(l, g.nestedInner(l, 1), true)[0])
+		}
+	}
+	return ms
+}
+
+// ---- the worker: one conversation pair per "setup", one Receive per "recv"
+
+const (
+	pwWorkerEnv  = "OTRH_PARSE_WORKER"
+	pwStackLimit = 8 << 20 // the library's receive path is a few frames deep; the default of 1 GB takes long to fill
+	pwHeapLimit  = 256 << 20
+	pwMaxDeaths  = 6
+)
+
+var pwDeaths int // workers that died or hung in this run
+
+func parseWorker() {
+	debug.SetMaxStack(pwStackLimit)
+	go func() {
+		var m runtime.MemStats
+		for {
+			time.Sleep(5 * time.Millisecond)
+			runtime.ReadMemStats(&m)
+			if m.HeapAlloc > pwHeapLimit {
+				os.Exit(3)
+			}
+		}
+	}()
+	sink := &emitter{ops: bufio.NewWriter(io.Discard), impl: bufio.NewWriter(io.Discard)}
+	olog = &oracleLog{checked: map[string]int{}, out: sink}
+	var w *world
+	var l *link
+	in := bufio.NewReaderSize(os.Stdin, 1<<20)
+	out := bufio.NewWriter(os.Stdout)
+	for {
+		line, err := in.ReadString('\n')
+		if err != nil {
+			return
+		}
+		toks := strings.Fields(line)
+		c0 := kfSelfCPU()
+		res := "bad-op"
+		switch {
+		case len(toks) == 3 && toks[0] == "setup":
+			seed, _ := strconv.ParseInt(toks[1], 10, 64)
+			state, _ := strconv.Atoi(toks[2])
+			g := &gen{r: rand.New(rand.NewSource(seed)), out: sink, dist: map[string]int{}}
+			w = newWorld(g)
+			var ok bool
+			l, ok = g.inState(w, state)
+			res = "ok"
+			if !ok {
+				res = "dead"
+			}
+		case len(toks) == 2 && toks[0] == "recv" && l != nil:
+			res = "dead"
+			if !w.dead {
+				res = "ok"
+				if _, _, _, p := w.recv(l.a, unhex(toks[1])); p {
+					res = "PANIC"
+				}
+			}
+		}
+		out.WriteString(res + fmt.Sprintf("\tcpu=%d\n", (kfSelfCPU()-c0).Milliseconds()))
+		out.Flush()
+	}
+}
+
+// kfWorker.start (keyfile.go) with the environment variable of this profile's worker
+func pwStart(w *kfWorker) {
+	exe, err := os.Executable()
+	if err != nil {
+		panic(err)
+	}
+	w.cmd = exec.Command(exe)
+	w.cmd.Env = append(os.Environ(), pwWorkerEnv+"=1", "GOTRACEBACK=none")
+	stdin, err := w.cmd.StdinPipe()
+	if err != nil {
+		panic(err)
+	}
+	stdout, err := w.cmd.StdoutPipe()
+	if err != nil {
+		panic(err)
+	}
+	w.stderr = &bytes.Buffer{}
+	w.cmd.Stderr = w.stderr
+	if err := w.cmd.Start(); err != nil {
+		panic(err)
+	}
+	w.in = bufio.NewWriterSize(stdin, 1<<20)
+	lines := make(chan string, 1)
+	w.lines = lines
+	go func() {
+		r := bufio.NewReaderSize(stdout, 1<<20)
+		for {
+			l, err := r.ReadString('\n')
+			if err != nil {
+				close(lines)
+				return
+			}
+			lines <- strings.TrimRight(l, "\n")
+		}
+	}()
+	w.starts++
+}
+
+// feed the inputs to a conversation in the given state inside the worker; returns, in order, the
+// inputs the worker survived (up to and including the first one that panics: a panic is recovered,
+// and reported by the in-process path)
+func (g *gen) nestedViaWorker(pw *kfWorker, seed int64, state int, inputs [][]byte) (alive [][]byte) {
+	call := func(op string) (string, string) {
+		if pw.cmd == nil {
+			pwStart(pw)
+		}
+		res, desc, _ := pw.call(op)
+		return res, desc
+	}
+	report := func(res, desc, what string) {
+		pwDeaths++
+		key := "receive-fatal"
+		switch res {
+		case "STACKOVERFLOW":
+			key = "receive-stack-overflow"
+		case "HANG":
+			key = "receive-hang"
+		}
+		olog.viol("C13", key, fmt.Sprintf("a process that %s dies or hangs: %s (%s); conversation state %d of the parse profile (0 fresh, 1-3 that many key exchange messages delivered, 4 encrypted, 5 finished, 6 SMP in progress), conversation seed %d", what, desc, res, state, seed))
+	}
+	// the conversation, and everything it has survived so far
+	setup := func() bool {
+		res, desc := call(fmt.Sprintf("setup %d %d", seed, state))
+		if res != "ok" {
+			if res != "dead" {
+				report(res, desc, "runs the genuine exchange that leads to the state")
+			}
+			return false
+		}
+		for _, m := range alive {
+			if res, desc := call("recv " + hx(m)); res != "ok" {
+				report(res, desc, fmt.Sprintf("hands %q (hex %s) to Receive a second time", m, hx(m)))
+				return false
+			}
+		}
+		return true
+	}
+	fresh := true
+	for _, m := range inputs {
+		if fresh || pw.cmd == nil {
+			if !setup() {
+				return
+			}
+			fresh = false
+		}
+		res, desc := call("recv " + hx(m))
+		olog.ok("C13")
+		switch res {
+		case "ok":
+			alive = append(alive, m)
+		case "PANIC":
+			return append(alive, m)
+		case "dead", "bad-op":
+			return
+		default:
+			g.dist["nested:"+res]++
+			report(res, desc, fmt.Sprintf("hands the %d bytes %q (hex %s) to Receive", len(m), m, hx(m)))
+		}
+	}
+	return
 }
 
 // fail (or shorten) the k-th randomness read of one party during a fixed scenario, for k = 0, 1, 2, …
@@ -362,16 +750,27 @@ func (g *gen) degenerateRandomness(w *world) {
 }
 
 func init() {
+	if os.Getenv(pwWorkerEnv) != "" {
+		parseWorker()
+		os.Exit(0)
+	}
 	profiles["parse"] = func(seed int64, n int, out *emitter, extra map[string]interface{}) map[string]int {
 		g := &gen{r: rand.New(rand.NewSource(seed)), out: out, dist: map[string]int{}}
 		olog = &oracleLog{checked: map[string]int{}, out: out}
 		w := newWorld(g)
+		pw := &kfWorker{}
+		defer pw.stop()
 		for i := 0; i < n; i++ {
 			g.parserCase()
 			if i%4 == 0 {
-				g.receiveCase(w)
+				g.receiveCase(w, nil)
+			}
+			if i%8 == 2 {
+				g.receiveCase(w, pw)
 			}
 		}
+		pw.stop()
+		extra["worker_starts"] = pw.starts
 		g.randFailureSweep(w, false)
 		g.randFailureSweep(w, true)
 		g.degenerateRandomness(w)
